@@ -151,4 +151,39 @@ theorem deletion_returns_address_and_teids (cfg : Cfg) (w : World) (a seid : Nat
   refine ⟨fun hk => (keys_release w.pool w.teid s.lseid s.pdrs _ hk).2 rfl, fun p hp hc h1 => ?_⟩
   exact foldl_free_clears s.pdrs w.teid p hp hc h1
 
+theorem report_returns_address_and_teids (cfg : Cfg) (w : World) (a seid : Nat) (s : Session)
+    (hf : (w.conn a).sessions.find? (·.lseid = seid) = some s) :
+    s.lseid ∉ poolKeys (reportContextNotFound cfg w a seid).pool ∧
+    ∀ p ∈ s.pdrs, p.chooseTeid = true → 1 ≤ p.tunnelTEID → (reportContextNotFound cfg w a seid).teid.used (p.tunnelTEID - 1) = false := by
+  unfold reportContextNotFound
+  simp only [hf]
+  rw [setConn_pool, setConn_teid]
+  refine ⟨fun hk => (keys_release w.pool w.teid s.lseid s.pdrs _ hk).2 rfl, fun p hp hc h1 => ?_⟩
+  exact foldl_free_clears s.pdrs w.teid p hp hc h1
+
+theorem foldl_drop_stays_clear (cfg : Cfg) : ∀ (ss : List Session) (w : World) (x : Nat), w.teid.used x = false →
+    (ss.foldl (dropSession cfg) w).teid.used x = false
+  | [], _, _, h => h
+  | s :: rest, w, x, h => by
+    rw [List.foldl_cons]
+    exact foldl_drop_stays_clear cfg rest _ x (foldl_free_stays_clear s.pdrs w.teid x h)
+
+theorem foldl_drop_clears (cfg : Cfg) : ∀ (ss : List Session) (w : World) (s : Session) (p : Pdr), s ∈ ss → p ∈ s.pdrs →
+    p.chooseTeid = true → 1 ≤ p.tunnelTEID → (ss.foldl (dropSession cfg) w).teid.used (p.tunnelTEID - 1) = false
+  | [], _, _, _, hs, _, _, _ => by cases hs
+  | t :: rest, w, s, p, hs, hp, hc, h1 => by
+    rw [List.foldl_cons]
+    rcases List.mem_cons.mp hs with rfl | hs
+    · exact foldl_drop_stays_clear cfg rest _ _ (foldl_free_clears s.pdrs w.teid p hp hc h1)
+    · exact foldl_drop_clears cfg rest _ s p hs hp hc h1
+
+/-- an association's ending (release, read timeout, heartbeat failure, stop) returns what every one of its sessions holds -/
+theorem shutdown_returns_addresses_and_teids (cfg : Cfg) (w : World) (a : Nat) (s : Session) (hs : s ∈ (w.conn a).sessions) :
+    s.lseid ∉ poolKeys (shutdownConn cfg w a).pool ∧
+    ∀ p ∈ s.pdrs, p.chooseTeid = true → 1 ≤ p.tunnelTEID → (shutdownConn cfg w a).teid.used (p.tunnelTEID - 1) = false := by
+  unfold shutdownConn
+  dsimp only
+  refine ⟨fun hk => (foldl_drop_pool cfg _ w _ hk).2 s hs rfl, fun p hp hc h1 => ?_⟩
+  exact foldl_drop_clears cfg _ w s p hs hp hc h1
+
 end Agent
